@@ -298,6 +298,10 @@ def entry_points(path, cwds):
         eps.append(("relpath", c, os.path.relpath(path, c)))
         eps.append(("relfile", c, ("file", os.path.relpath(path, c))))
     eps.append(("absfile", None, ("file", path)))
+    # a file object opened in binary mode also "has a name" (schemas only: the XML reader takes
+    # bytes, the configuration reader needs text)
+    eps.append(("absfile-binary", None, ("fileb", path)))
+    eps.append(("relfile-binary", cwds[-1], ("fileb", os.path.relpath(path, cwds[-1]))))
     return eps
 
 
@@ -309,7 +313,12 @@ def load_via(kind, schema, ep):
         os.chdir(cwd)
     try:
         try:
-            if isinstance(what, tuple):
+            if isinstance(what, tuple) and what[0] == "fileb":
+                if kind != "schema":
+                    return ("skip",)
+                with open(what[1], "rb") as fh:
+                    r = ZConfig.loadSchemaFile(fh)
+            elif isinstance(what, tuple):
                 with open(what[1], encoding="utf-8") as fh:
                     r = ZConfig.loadSchemaFile(fh) if kind == "schema" else ZConfig.loadConfigFile(schema, fh)
             else:
@@ -367,7 +376,9 @@ def check_layout(L, frag=None):
             return out
         cres = []
         for ep in entry_points(cpath, cwds):
-            cres.append((ep[0], ep[1], load_via("config", schema, ep)))
+            r = load_via("config", schema, ep)
+            if r[0] != "skip":
+                cres.append((ep[0], ep[1], r))
         cfirst = cres[0][2]
         for label, cwd, r in cres:
             if r[0] == "internal":
